@@ -28,7 +28,7 @@ P == INSTANCE MC_PipelineCall WITH d <- 0, phase <- "idle", out <- "", kw <- <<>
 
 ---------------------------------------------------------------------------
 (* valid base requests *)
-Cfg(storage, cleanup, folder) == [storage |-> storage, sdict |-> <<>>, parallel |-> FALSE, executor |-> FALSE, cleanup |-> cleanup,
+Cfg(storage, cleanup, folder) == [storage |-> storage, sdict |-> <<>>, parallel |-> FALSE, executor |-> FALSE, ekeys |-> <<>>, cleanup |-> cleanup,
                                   folder |-> folder]
 NameIdx(n) == CASE n = "x" -> 1 [] n = "y" -> 2 [] n = "z" -> 3 [] n = "a" -> 4 [] n = "a2" -> 5 [] n = "b" -> 6 [] OTHER -> 7
 SeqKey(ps) == LET RECURSIVE K(_)
@@ -122,12 +122,15 @@ Apply(op, b) == CASE op = "rename_collision"  -> RenameCollision(b)
                   [] op = "axis_names"        -> AxisNames(b)
                   [] op = "mapspec_signature" -> MapSpecSignature(b)
                   [] OTHER                    -> {b}
-CfgsFor(op) == CASE op = "unknown_storage" -> {Cfg("nonsense", cl, fo) : cl \in BOOLEAN, fo \in BOOLEAN} \ {Cfg("nonsense", FALSE, FALSE)}
-                 [] op = "executor_without_parallel" -> {[Cfg("file_array", cl, TRUE) EXCEPT !.executor = TRUE] : cl \in BOOLEAN}
+(* executor forms: a bare Executor; {"": pool}; {output name(s) of the first function: pool, "": pool} *)
+ExecutorForms(b) == {<<>>, <<<<>>>>, <<b.desc.funcs[1].outputs, <<>>>>}
+CfgsFor(op, b) == CASE op = "unknown_storage" -> {Cfg("nonsense", cl, fo) : cl \in BOOLEAN, fo \in BOOLEAN} \ {Cfg("nonsense", FALSE, FALSE)}
+                 [] op = "executor_without_parallel" ->
+                        {[Cfg("file_array", cl, TRUE) EXCEPT !.executor = TRUE, !.ekeys = ek] : cl \in BOOLEAN, ek \in ExecutorForms(b)}
                  [] OTHER -> {Cfg("file_array", cl, TRUE) : cl \in BOOLEAN}
 NoHow == [kind |-> "", f |-> "", old |-> "", new |-> ""]
 MapReq(m, c, b) == [desc |-> m.desc, inputs |-> m.inputs, cfg |-> c, prev |-> b, entry |-> "map", out |-> ""]
-BasicMutants(b) == UNION {{[op |-> op, req |-> MapReq(m, c, b), how |-> NoHow] : m \in Apply(op, b), c \in CfgsFor(op)} : op \in Ops}
+BasicMutants(b) == UNION {{[op |-> op, req |-> MapReq(m, c, b), how |-> NoHow] : m \in Apply(op, b), c \in CfgsFor(op, b)} : op \in Ops}
 
 (* --- per-output storage dictionary with one unknown name: before / after the default entry, default storage with and   *)
 (* without serialization, keyed by the output name(s) of every function (a tuple key for a tuple output) or by a name     *)
